@@ -20,10 +20,12 @@ LB(V, b) == CASE b = "default" -> [v \in 1..V |-> -INF] [] b = "scalar" -> [v \i
               [] b = "vector" -> [v \in 1..V |-> v - 2] [] b = "mixinf" -> [v \in 1..V |-> IF v = 1 THEN -INF ELSE 0]
               [] b = "crossed" -> [v \in 1..V |-> 1] [] b = "badlen" -> [v \in 1..(V + 1) |-> -1]
               [] b = "crossfix" -> [v \in 1..V |-> IF v = Min2(2, V) THEN 1 ELSE -1]     \* crossed for one variable only (the one a vector mask fixes)
+              [] b = "nested" -> [v \in 1..V |-> -1]
 UB(V, b) == CASE b = "default" -> [v \in 1..V |-> INF] [] b = "scalar" -> [v \in 1..V |-> 2]
               [] b = "vector" -> [v \in 1..V |-> v + 1] [] b = "mixinf" -> [v \in 1..V |-> IF v = 2 THEN INF ELSE 3]
               [] b = "crossed" -> [v \in 1..V |-> 0] [] b = "badlen" -> [v \in 1..V |-> 2]
               [] b = "crossfix" -> [v \in 1..V |-> IF v = Min2(2, V) THEN 0 ELSE 2]
+              [] b = "nested" -> [v \in 1..V |-> 2]
 Mask(V, k) == CASE k = "none" -> <<>> [] k = "scalar" -> [v \in 1..V |-> TRUE]
                 [] k = "vector" -> [v \in 1..V |-> v # 2] [] k = "badlen" -> [v \in 1..(V + 1) |-> TRUE]
 Magn4(V, k) == CASE k = "scalar" -> [v \in 1..V |-> 1] [] k = "vector" -> [v \in 1..V |-> v] [] k = "badlen" -> [v \in 1..(V + 1) |-> 1]
@@ -34,7 +36,7 @@ Clamp(given, n) == IF given < 0 \/ given > n THEN n ELSE given        \* -1 stan
 Rejected(c) ==
   \/ SumTo(RW(c.R, c.rwp), c.R) = 0
   \/ SumTo(OW(c.owp), Len(OW(c.owp))) = 0
-  \/ c.bnd \in {"crossed", "badlen", "crossfix"}
+  \/ c.bnd \in {"crossed", "badlen", "crossfix", "nested"}       \* nested: V values as a 1 x V / V x 1 matrix - not a vector
   \/ c.mask = "badlen" \/ c.magn = "badlen"
   \/ (c.ptype = "rel" /\ \E v \in 1..c.V : IsInf(LB(c.V, c.bnd)[v]) \/ IsInf(UB(c.V, c.bnd)[v]))
   \/ c.lin \in {"badcols", "crossed"} \/ c.nl = "crossed"
